@@ -329,3 +329,8 @@ def run(ctx):
         ctx.notes.append("DIVERGENCE: %d trace(s) of the real Reader are not behaviours of FetchLog.tla" % len(divs))
         print("DIVERGENCE property=C02 traces=%d first=%s" % (len(divs), json.dumps(divs[0])[:300]), flush=True)
     return cov
+
+
+def replay(ctx, path):
+    from engines import replayer
+    return replayer.replay(ctx, path)
